@@ -39,8 +39,10 @@ def tens(data, shape):
     return torch.tensor(data, dtype=torch.float64).reshape(shape)
 
 
-def build(case, delayed=True, bias=None):
-    """the connection under test (delayed=True) or an undelayed, unbiased copy of it"""
+def build(case, delayed=True, bias=None, cur=None):
+    """the connection under test (delayed=True) or an undelayed, unbiased copy of it; cur overrides dt / delay / B"""
+    if cur:
+        case = dict(case, **cur)
     kind = case["conn"]
     delay = case["delay"] if delayed else None
     hasb = (case["b"] is not None) if bias is None else bias
@@ -92,6 +94,25 @@ def tensor_in(case, shape, vals):
     return torch.tensor([bool(v) for v in vals], dtype=torch.bool).reshape(shape)
 
 
+def restore_into_twin(c, case, cur, op):
+    """checkpoint the connection, load it into a twin of the same configuration (fresh, or already run on other data),
+    return the twin: the run continues on it"""
+    import copy
+    sd = copy.deepcopy(c.state_dict())
+    twin = build(case, cur=cur)
+    if op[1] == "used":
+        g = torch.Generator().manual_seed(int(op[3]))
+        with torch.no_grad():
+            if twin.delay is not None:
+                twin.delay = torch.rand(twin.delay.shape, generator=g, dtype=torch.float64) * float(cur["delay"] or 0.0)
+            twin.weight = torch.rand(twin.weight.shape, generator=g, dtype=torch.float64)
+        for _ in range(int(op[2])):
+            x = torch.rand(tuple(twin.batched_inshape), generator=g, dtype=torch.float64) < 0.6
+            twin(x if not case.get("float_in") else x.to(torch.float64))
+    twin.load_state_dict(sd)
+    return twin
+
+
 def apply(c, case, op):
     k = op[0]
     if k == "step":
@@ -117,16 +138,43 @@ def apply(c, case, op):
     raise AssertionError(k)
 
 
+def reconfigure(c, case, cur, op):
+    """dt / maximum-delay / batch-size setters (the first two clear the synapse and are followed by a delay assignment)"""
+    k = op[0]
+    if k == "setdt":
+        c.dt = op[1]
+        cur["dt"] = op[1]
+    elif k == "setmaxdelay":
+        c.synapse.delay = op[1]
+        cur["delay"] = op[1]
+    elif k == "setbatch":
+        c.batchsz = op[1]
+        cur["B"] = op[1]
+        return [0]
+    with torch.no_grad():
+        if c.delay is not None:
+            c.delay = tens(op[2], c.delay.shape)
+    return [5, c.synapse.spike_.recordsz]
+
+
 def run_conn(case):
     c = build(case)
+    cur = {"dt": case["dt"], "delay": case["delay"], "B": case["B"]}
+    rsz0 = c.synapse.spike_.recordsz
     tr = []
     for op in case["ops"]:
         try:
-            tr.append(apply(c, case, op))
+            if op[0] == "restore":
+                c = restore_into_twin(c, case, cur, op)
+                tr.append([0])
+            elif op[0] in ("setdt", "setmaxdelay", "setbatch"):
+                tr.append(reconfigure(c, case, cur, op))
+            else:
+                tr.append(apply(c, case, op))
         except Exception as e:  # noqa
             code = exc_code(e)
             tr.append([3, code] if code != 9 else [3, 9, f"{type(e).__name__}: {e}"[:200]])
-    info = {"recordsz": c.synapse.spike_.recordsz, "delayedby": c.delayedby, "has_delay": c.delay is not None,
+    info = {"recordsz": rsz0, "recordsz_final": c.synapse.spike_.recordsz, "delayedby": c.delayedby, "has_delay": c.delay is not None,
             "w": flt(c.weight), "b": None if c.bias is None else flt(c.bias),
             "d": None if c.delay is None else flt(c.delay),
             "outshape": [int(v) for v in c.batched_outshape], "synshape": [int(v) for v in c.synapse.batchedshape]}
@@ -153,6 +201,29 @@ def run_bank(case):
             continue
         if k == "setdelay":
             kmask = torch.tensor(op[2], dtype=torch.int64)
+            out.append(None)
+            continue
+        if k in ("setdt", "setmaxdelay"):
+            # both setters clear the synapse; the undelayed copies follow the step time, and start a new history
+            for u in bank:
+                if k == "setdt":
+                    u.dt = op[1]
+                u.clear()
+            hist = []
+            kmask = torch.tensor(op[3], dtype=torch.int64)
+            out.append(None)
+            continue
+        if k == "setbatch":
+            nb = int(op[1])
+            for u in bank:
+                u.batchsz = nb
+
+            def rebatch(t):
+                ob = t.shape[0]
+                if nb <= ob:
+                    return t[ob - nb:]
+                return torch.cat((torch.zeros((nb - ob,) + tuple(t.shape[1:]), dtype=t.dtype), t), 0)
+            hist = [(rebatch(x), [rebatch(i) for i in inj]) for x, inj in hist]
             out.append(None)
             continue
         if k != "step":
